@@ -363,6 +363,25 @@ def sp_has(ex, args, kwargs, node):
     return d.present(k)
 
 
+@spec("attr_or")
+def sp_attr_or(ex, args, kwargs, node):
+    """attr_or(mapping, key, default): the value under key if it is (certainly) there, `default` if it is (certainly) not, and
+    ite(present, value, default) for scalar values otherwise - keeps guarded clauses total"""
+    d, k, dflt = args
+    if isinstance(d, dict):
+        return d.get(k, dflt)
+    p = d.present(k)
+    if p is False:
+        return dflt
+    v = d.entries[k][1]
+    if v is V.UNSET:
+        v = ex.fresh_entry(d, k)
+        d.materialise(k, v)
+    if p is True:
+        return v
+    return E.ite_val(p, v, dflt)
+
+
 @spec("getdefault")
 def sp_getdefault(ex, args, kwargs, node):
     """getdefault(d, key, default): d.get(key, default) for a python dict of keyword arguments"""
